@@ -27,6 +27,24 @@ Theorem C02_qr_move : forall (M : nat -> mat2), M 0 = Xm -> forall (n m : nat) (
 Proof. exact move_sem. Qed.
 Print Assumptions C02_qr_move.
 
+(* the block generated from the two basis states alone (the lowest differing qubit moves first, as in the code): for every width and
+   every pair of distinct basis states whose highest differing qubit reads 0 in the column state (col < row), with no checker left *)
+Theorem C02_qr_block_all : forall (M : nat -> mat2) (n : nat) (col row : asg) (psi : state), M 0 = Xm ->
+  qr_pre n col row = true ->
+  mrun M (qr_block n col row) psi = two_level n col row (M 1) psi.
+Proof. exact qr_block_two_level. Qed.
+Print Assumptions C02_qr_block_all.
+
+Theorem C02_qr_gray_path : forall (n : nat) (col row : asg), diffs n col row <> [] ->
+  get col (last (diffs n col row) 0) = false -> get row (last (diffs n col row) 0) = true ->
+  let r := gray (diffs n col row) col row in
+  path_ok n (fst (fst r)) (snd (fst r)) (snd r) col row = true.
+Proof. exact gray_path_ok. Qed.
+Print Assumptions C02_qr_gray_path.
+
+Example ex_pre : qr_pre 3 1%N 6%N = true.
+Proof. vm_compute. reflexivity. Qed.
+
 (* the checker accepts real paths: 3 qubits, column state 1 = 001, row state 6 = 110 (all three bits differ): two moves, then
    the gate on qubit 2 *)
 Example ex_path : path_ok 3 [(0, 6%N); (1, 1%N)] 2 3%N 1%N 6%N = true.
